@@ -35,10 +35,11 @@ def ofm_blocks(f):
 
 def ifm_depth_blocks(f, accel):
     """IFM depth slices a convolution job iterates over (16 or 32 channel blocks); other kinds read the OFM block's own depth range"""
-    if f["kind"] != "conv":
+    if f["kind"] != "conv" and not (f["kind"] == "pool" and f.get("mode") == "REDUCE_SUM"):  # (REDUCE_SUM sums over the IFM depth like a convolution)
         return None
     bits = f["ifm"]["bits"]
-    step = 16 if (bits == 16 or f["kernel"]["part_kernel"]) else 32
+    # 256 bits of IFM depth per block job: 32 channels of 8 bits (16 when the kernel is traversed part-kernel-first), 16 of 16 bits, 8 of 32 bits
+    step = 16 if (bits == 16 or (bits == 8 and f.get("kernel", {}).get("part_kernel"))) else 8 if bits == 32 else 32
     d = f["ifm"]["depth"]
     return [(z, min(z + step, d)) for z in range(0, d, step)]
 
